@@ -37,7 +37,7 @@ def b(x):
 
 SPECS = {
     "block": ["1.1", "", "1.1#", "<20.^5", "1.1#ffffff", "1.1#.3"],
-    "kitty": ["1.1+W", "1.1+L", "1.1", "1.1#+Wc0", "1.1##+Lm1z5", "<12._3+W"],
+    "kitty": ["1.1+W", "1.1+L", "1.1", "1.1#+Wc0", "1.1##+Lz5m1", "<12._3+W"],
     "iterm2": ["1.1+W", "1.1+L", "1.1+A", "1.1#+Wc9", "1.1+Am1", "1.1#abcdef+L", "|14.-4+A"],
 }
 
@@ -103,6 +103,9 @@ def gen_iter_case(rng, long=False):
             ops.append(["next"])
     if shape < 0.25 and repeat > 0:
         ops = [["next"]] * min(n * repeat + 2, 45)
+    if ["drop"] in ops:  # the iterator object is gone after a drop: only the image can still be observed
+        k = ops.index(["drop"])
+        ops = ops[:k + 1] + [o for o in ops[k + 1:] if o[0] == "size"]
     c = {"part": "iter", "style": style, "src": src, "source": rng.choice(["file", "file", "pil", "pil_file"]),
          "spec": rng.choice(SPECS[style]), "repeat": repeat, "cached": cached, "sizes": sizes, "ops": ops,
          "cell": [rng.randint(2, 12), rng.randint(4, 24)], "pos0": rng.choice([0, 0, 1, 3]),
@@ -138,7 +141,7 @@ ITER_CORPUS = [
     {"part": "iter", "style": "block", "src": {"kind": "new", "seed": 5, "w": 5, "h": 5, "mode": "P", "frames": 2, "fmt": "GIF"},
      "source": "file", "spec": "1.1", "repeat": 1, "cached": False, "sizes": [[3, 2]], "ops": [["close"], ["next"], ["seek", 0]]},
     {"part": "iter", "style": "block", "src": {"kind": "new", "seed": 5, "w": 5, "h": 5, "mode": "P", "frames": 2, "fmt": "GIF"},
-     "source": "pil", "spec": "1.1", "repeat": -1, "cached": True, "sizes": [[3, 2]], "ops": [["next"], ["next"], ["next"], ["drop"], ["next"]]},
+     "source": "pil", "spec": "1.1", "repeat": -1, "cached": True, "sizes": [[3, 2]], "ops": [["next"], ["next"], ["next"], ["drop"]]},
 ]
 
 
